@@ -79,7 +79,9 @@ def case_strategy(draw, pair=None):
     # repeats the End-to-End identifier of a request served just before under another Hop-by-Hop identifier, or simply the second
     # request with the same identifiers / another one
     earlier = draw(st.sampled_from([None, None, "retransmission", "retransmission-no-t-flag", "same-ids", "other-ids"])) if via == "route" else None
-    return {"earlier": earlier, "req": req, "ans": ans, "rc": rcspec, "via": via, "req_form": draw(st.sampled_from(["built", "decoded"])), "ids": ids, "pre": pre}
+    # look-alikes of the Result-Code in the handler's answer: the same AVP code in a vendor's code space, holding a code of another family
+    decoy = draw(st.sampled_from([None, None, None, "after", "before"])) if mode == "result" else None
+    return {"decoy": decoy, "earlier": earlier, "req": req, "ans": ans, "rc": rcspec, "via": via, "req_form": draw(st.sampled_from(["built", "decoded"])), "ids": ids, "pre": pre}
 
 
 def _build(case_typed, extra_kwargs=None):
@@ -125,6 +127,14 @@ def check_pair(case):
             n0 = rcs["code"]
             if pre["kind"] == "e-set" and n0 // 1000 in (3, 4, 5) and n0 % 1000:
                 answer.header.set_error_bit(True)
+        if case.get("decoy"):
+            from bromelia.base import DiameterAVP
+            other = (2001 if rcs["code"] // 1000 in (3, 4, 5) else 5012).to_bytes(4, "big")
+            twin = DiameterAVP(code=268, vendor_id=9, flags=0x80, data=other)
+            if case["decoy"] == "after":
+                answer.append(twin)
+            else:
+                answer.avps = [twin] + list(answer.avps)
         req_wire = rc.dec_stream(request.dump())[0]
         if case["req_form"] == "decoded":
             request = DiameterMessage.load(request.dump())[0]
@@ -238,6 +248,8 @@ def features(case):
     f.add(f"family={min(n // 1000, 6)}")
     if case.get("earlier"):
         f.add("request-history=" + case["earlier"])
+    if case.get("decoy"):
+        f.add("vendor-twin-of-result-code-" + case["decoy"])
     return f
 
 
